@@ -392,3 +392,43 @@ Proof.
   - cbn [seq_trace]. rewrite run_app, block_run, IH. cbn [upto flat_map].
     rewrite <- app_assoc. do 3 f_equal; lia.
 Qed.
+
+(* ---- statements used by Props/C18.v ------------------------------------------------------------------------------------------ *)
+
+Lemma recovers_partial ns tr s :
+  run ns (init ns) tr = Some s -> p_index (st_p s) = p_state (st_p s) -> recovery_correct ns s.
+Proof. intros Hrun Heq. apply recovers_when_equal; [eapply inv_reachable; eassumption | exact Heq]. Qed.
+
+Lemma recovery_outcome ns tr s :
+  run ns (init ns) tr = Some s ->
+  let p := crash s in
+  (p_index p = p_state p /\ recover ns p = ROk (p_index p) p (notify_all ns (p_index p)))
+  \/ (p_index p = p_state p + 1 /\ recover ns p = RPanic)
+  \/ (p_state p + 2 <= p_index p /\ p_index p <= p_state p + 18 /\ recover ns p = RErr E_INVALID_STATE).
+Proof.
+  intros Hrun. pose proof (inv_numbers ns s (inv_reachable ns tr s Hrun)) as [Hle [Hub [Hres _]]].
+  cbn zeta in *. unfold crash.
+  destruct (N.eq_dec (p_index (st_p s)) (p_state (st_p s))) as [He | Hne].
+  - left. split; [exact He | apply recover_equal; [exact He | exact (Hres He)]].
+  - right. destruct (N.eq_dec (p_index (st_p s)) (p_state (st_p s) + 1)) as [He1 | Hne1].
+    + left. split; [exact He1 | apply recover_plus_one; lia].
+    + right. split; [lia | split; [exact Hub | apply recover_ge_two; lia]].
+Qed.
+
+Lemma reference_run ns len :
+  exists lg, run ns (init ns) (seq_trace ns len)
+             = Some (resume (mkP (N.of_nat len) (N.of_nat len) (N.of_nat len)) lg).
+Proof.
+  pose proof (seq_run ns len 0 (notify_all ns 0)) as H. rewrite !N.add_0_l in H.
+  eexists. exact H.
+Qed.
+
+Definition wit_plus1 : list label := [LIndex].
+Definition wit_plus2 : list label := [LIndex; LEnqueue; LIndex].
+
+Lemma not_recovery_correct_plus1 :
+  exists s, run 2 (init 2) wit_plus1 = Some s /\ ~ recovery_correct 2 s.
+Proof.
+  eexists. split; [vm_compute; reflexivity|].
+  intros [p' [rlog [Hrec _]]]. vm_compute in Hrec. discriminate Hrec.
+Qed.
